@@ -285,6 +285,18 @@ REGISTRY: Dict[str, List[Tuple[Frag, str]]] = {
               {"first_parameter": "real", "second_parameter": "real"},
               tests=("first_parameter < 0", "second_parameter < 0"), outs=("first_parameter", "second_parameter")), "real"),
     ],
+    "C10": [
+        # core/flow.py normalize_flow / denormalize_flow: the functional GRID <-> cube conversion (per component; `size` is the
+        # number of samples along the component's axis as a tensor of the data's dtype)
+        (Frag("norm_side", _FL, "normalize_flow", "block", {"data": "real", "side_length": "real"},
+              tests=("side_length != 1",), outs=("data",)), "real"),
+        (Frag("norm_scale", _FL, "normalize_flow", "lets", {"data": "real", "size": "real", "align_corners": "bool"},
+              lets=("zero", "size", "size_", "data"), result="=data"), "real"),
+        (Frag("denorm_scale", _FL, "denormalize_flow", "lets", {"data": "real", "size": "real", "align_corners": "bool"},
+              lets=("zero", "size", "size_", "data"), result="=data"), "real"),
+        (Frag("denorm_side", _FL, "denormalize_flow", "block", {"data": "real", "side_length": "real"},
+              tests=("side_length != 1",), outs=("data",)), "real"),
+    ],
     "C14": [
     ] + [
         (Frag(f"bw{d}_{col}", "deepali/core/bspline.py", "cubic_bspline_interpolation_weights", "assign",
